@@ -20,6 +20,13 @@
 (*    suites.json is dumped from cipherSuites / defaultCipherSuitesTLS13   *)
 (*    by the verif accessor VerifCipherSuiteTable on every run.            *)
 (*                                                                         *)
+(* Inputs: the variant (ALPN forced / forbidden / by coin), the weights, and  *)
+(* nextProtos (Config.NextProtos).  nextProtos only supplies the content of *)
+(* the ALPN list; it decides neither ALPN nor ALPS (the code guards ALPS    *)
+(* with WithALPN, u_parrots.go:3131) and is therefore not a model variable: *)
+(* real specs generated with every nextProtos shape must be outputs of this *)
+(* model (Randomized_Trace, DetailOK checks the list content).              *)
+(*                                                                         *)
 (* obs is a prophecy variable: Free in the exhaustive model; when a real   *)
 (* generated spec is replayed (Randomized_Trace) it holds the decision     *)
 (* vector read off that spec and every step must agree with it, so the     *)
